@@ -81,6 +81,15 @@ func (r *Report) Count(key string) {
 	r.Distribution[key] = c + 1
 }
 func (r *Report) Disagree(sig, what, replay string) {
+	n := 0
+	for _, d := range r.Disagreements {
+		if d.Signature == sig {
+			n++
+		}
+	}
+	if n >= 3 { // keep a few examples per signature
+		return
+	}
 	r.Disagreements = append(r.Disagreements, Finding{r.Property, sig, what, replay})
 }
 func (r *Report) Violate(sig, what, replay string) {
@@ -131,6 +140,7 @@ func main() {
 		os.Exit(2)
 	}
 	rep := NewReport(*prop, name, *tier, *seed)
+	curReport = rep
 	start := time.Now()
 	fn(rep, *tier, *seed)
 	rep.WallS = time.Since(start).Seconds()
